@@ -604,8 +604,35 @@ thread_local! {
 
 pub struct ThreadCache;
 
+// 0 = undecided, 1 = thread caches, 2 = plain system allocator. Decided once, at the very first
+// allocation of the process, from the environment (`VERIF_SYSTEM_ALLOC`), so that every block of
+// a process is served by one policy. Processes that run each case in a fresh thread (the C03
+// pump children) use the system allocator: the caches of a finished thread are not reclaimed.
+static AC_MODE: std::sync::atomic::AtomicU8 = std::sync::atomic::AtomicU8::new(0);
+
+extern "C" {
+    fn getenv(name: *const std::os::raw::c_char) -> *mut std::os::raw::c_char;
+}
+
+#[inline]
+fn ac_system() -> bool {
+    match AC_MODE.load(std::sync::atomic::Ordering::Relaxed) {
+        1 => false,
+        2 => true,
+        _ => {
+            // getenv does not allocate
+            let set = unsafe { !getenv(b"VERIF_SYSTEM_ALLOC\0".as_ptr() as *const _).is_null() };
+            AC_MODE.store(if set { 2 } else { 1 }, std::sync::atomic::Ordering::Relaxed);
+            set
+        }
+    }
+}
+
 #[inline]
 fn ac_class(l: &Layout) -> Option<usize> {
+    if ac_system() {
+        return None;
+    }
     if l.size() <= AC_MAX && l.align() <= 16 {
         Some((l.size().max(1) + 15) / 16 - 1)
     } else {
